@@ -15,7 +15,7 @@ RULE = ('finite and complete: every .npz under pytorch_wavelets/dtcwt/data and e
         'through the loaders biort()/level1()/qshift()); level-1 filters equal their reverse, h0o*g0o + h1o*g1o is a unit impulse and '
         'g0o = (-1)^n h1o, g1o = (-1)^n h0o (band-pass h2o/g2o: symmetric, g2o = h2o); q-shift: sum h[n]h[n+2k] = delta_k for h0 and h1, '
         'h0/h1 shift-orthogonal, *b = reverse(*a), g* = reverse(h*) (band-pass h2*/g2* included for the reversal clauses); loading a name '
-        'twice and after every ordered pair of other names (all 3-permutations) returns equal values; distinct_nontrivial = distinct '
+        'twice and after every ordered pair of other names (all 3-permutations) returns equal values; constructing any consumer of the tables (all transform and scattering modules, the 4-DWT variants, DWT modules fed loader arrays) leaves the cached tables bit-identical and no module tensor shares memory with them; distinct_nontrivial = distinct '
         'arrays hashed')
 ASSUMPTIONS = ['the installed dtcwt 0.14 package carries the reference tables',
                'tables with no reference counterpart that no transform loads by default (farras, near_sym_a2) only get the load-twice clause']
@@ -36,6 +36,7 @@ def bounds(tier):
 def plan(tier):
     names = sorted(os.path.basename(f)[:-4] for f in glob.glob(data_dir() + '/*.npz'))
     items = [{'kind': 'table', 'name': n} for n in sorted(set(names) | set(LEVEL1) | set(QSHIFT))]
+    items.append({'kind': 'consumers'})
     loadable = LEVEL1 + QSHIFT
     perms = list(itertools.permutations(loadable, 3))
     for i in range(0, len(perms), 120):
@@ -44,7 +45,7 @@ def plan(tier):
 
 
 def required_regimes(tier):
-    return {'level1', 'qshift', 'bandpass', 'vs_reference_file', 'vs_reference_loader', 'load_orders', 'undocumented'}
+    return {'level1', 'qshift', 'bandpass', 'vs_reference_file', 'vs_reference_loader', 'load_orders', 'undocumented', 'consumers'}
 
 
 def _load(name):
@@ -79,10 +80,89 @@ def _alt(h):
     return h * (-1.0) ** k
 
 
+def _consumers():
+    """Every place in the library that takes filter arrays from the loaders (name -> constructor)."""
+    import pytorch_wavelets as pw
+    import pytorch_wavelets.dtcwt.coeffs as ic
+    from pytorch_wavelets.dtcwt import lowlevel2
+    from pytorch_wavelets.dwt.transform2d import SWTForward
+    out = {}
+    for b in ('near_sym_a', 'near_sym_b', 'antonini', 'legall'):
+        out['DTCWTForward(%s)' % b] = lambda b=b: pw.DTCWTForward(biort=b, qshift='qshift_b', J=2)
+        out['DTCWTInverse(%s)' % b] = lambda b=b: pw.DTCWTInverse(biort=b, qshift='qshift_b')
+    for q in ('qshift_06', 'qshift_a', 'qshift_b', 'qshift_c', 'qshift_d'):
+        out['DTCWTForward(%s)' % q] = lambda q=q: pw.DTCWTForward(qshift=q, J=2)
+        out['DTCWTInverse(%s)' % q] = lambda q=q: pw.DTCWTInverse(qshift=q)
+        out['DWTInverse(taps of %s)' % q] = lambda q=q: pw.DWTInverse(wave=(ic.qshift(q)[2], ic.qshift(q)[6]))
+        out['DWTForward(taps of %s)' % q] = lambda q=q: pw.DWTForward(wave=(ic.qshift(q)[0], ic.qshift(q)[4]))
+        out['DWT1DInverse(taps of %s)' % q] = lambda q=q: pw.DWT1DInverse(wave=(ic.qshift(q)[2], ic.qshift(q)[6]))
+    out['ScatLayer(near_sym_a)'] = lambda: pw.ScatLayer(biort='near_sym_a')
+    out['ScatLayer(near_sym_b_bp)'] = lambda: pw.ScatLayer(biort='near_sym_b_bp')
+    out['ScatLayerj2(bp)'] = lambda: pw.ScatLayerj2(biort='near_sym_b_bp', qshift='qshift_b_bp')
+    out['ScatLayerj2(near_sym_a,qshift_a)'] = lambda: pw.ScatLayerj2(biort='near_sym_a', qshift='qshift_a')
+    for bb in ('farras', 'near_sym_a2'):
+        out['DTCWTForward2(%s)' % bb] = lambda bb=bb: lowlevel2.DTCWTForward2(biort=bb, qshift='qshift_a', J=2)
+        out['DTCWTInverse2(%s)' % bb] = lambda bb=bb: lowlevel2.DTCWTInverse2(biort=bb, qshift='qshift_a')
+    return out
+
+
+def _run_consumers(res):
+    """Constructing (twice) any module that takes its filters from the loaders leaves every cached table bit-identical, and no
+    buffer / parameter of the module shares memory with a cached array (prep_filt copies)."""
+    import torch
+    import pytorch_wavelets.dtcwt.coeffs as ic
+    old = torch.get_default_dtype()
+    for dt in (torch.float64, torch.float32):
+        torch.set_default_dtype(dt)
+        try:
+            for name, ctor in _consumers().items():
+                ic.COEFF_CACHE.clear()
+                cfg = {'consumer': name, 'default_dtype': str(dt)}
+                res.state('consumer', name, str(dt))
+                try:
+                    m1 = ctor()
+                except Exception as e:
+                    res['notes'].append('consumer_not_constructible:%s' % name)
+                    continue
+                snap = {t: {k: np.array(v, copy=True) for k, v in tab.items()} for t, tab in ic.COEFF_CACHE.items()}
+                try:
+                    m2 = ctor()
+                    m3 = ctor()
+                except Exception as e:
+                    res.violation('load_twice', cfg, {'kind': 'raise_on_second_construction', 'exc': repr(e)[:200]}, [])
+                    continue
+                res['evals'] += 1
+                res['ophashes'].append(common.sha(cfg))
+                for t, tab in snap.items():
+                    for k, v in tab.items():
+                        now = ic.COEFF_CACHE.get(t, {}).get(k)
+                        if now is None or now.shape != v.shape or not np.array_equal(now, v):
+                            res.violation('load_twice', dict(cfg, table=t, key=k), {'kind': 'cached_table_changed_by_consumer',
+                                                                                    'maxdev': common.maxabs(now - v) if now is not None and now.shape == v.shape else None}, [])
+                cached = [a for tab in ic.COEFF_CACHE.values() for a in tab.values() if isinstance(a, np.ndarray) and a.size]
+                for mod in (m1, m2):
+                    for tn, tt in list(mod.named_buffers()) + list(mod.named_parameters()):
+                        try:
+                            arr = tt.detach().numpy()
+                        except Exception:
+                            continue
+                        if any(np.shares_memory(arr, a) for a in cached):
+                            res.violation('load_twice', dict(cfg, tensor=tn), {'kind': 'module_tensor_aliases_cached_table'}, [])
+                            break
+        finally:
+            torch.set_default_dtype(old)
+    res.regime('consumers')
+    res.sample({'consumers': sorted(_consumers())[:6], 'n_consumers': len(_consumers()), 'default_dtypes': ['float64', 'float32']})
+    ic.COEFF_CACHE.clear()
+    return res
+
+
 def run(item):
     common.init_worker()
     res = Res()
     import pytorch_wavelets.dtcwt.coeffs as ic
+    if item['kind'] == 'consumers':
+        return _run_consumers(res)
     if item['kind'] == 'orders':
         base = {}
         for n in LEVEL1 + QSHIFT:
